@@ -509,6 +509,8 @@ func init() {
 		checkDispositionTable(r, prog, "c05", false, true)
 		checkValueLookup(r, prog, a, "c05")
 		checkQuantifierAbsent(r, prog, a, "c05")
+		r.importing = "C03"
+		checkConnectives(r, prog, a, "c03") // "… is an error": and stays one on its way up through not/and/or
 		r.importing = "C04"
 		checkMatchDispatch(r, prog, a, "c04")
 		r.importing = "C18"
